@@ -7,6 +7,7 @@ This module should probably only be imported in the other modules inside
 the 'ia' package that implement the IA algorithms.
 """
 
+import operator
 from abc import ABCMeta, abstractmethod
 from typing import Any, List, Optional, Sequence, TypeVar, Union, cast
 
@@ -729,7 +730,9 @@ class IASolverBaseClass:  # pylint: disable=R0902
         calc_Q
         """
         P = self.P
-        k = int(k)
+        # `k` can be any integer: python int, numpy integer or a
+        # 0-dimensional integer array (which is not hashable)
+        k = operator.index(k)
         interfering_users = set(range(self.K)) - {k}
         Qk = np.zeros([self.Nt[k], self.Nt[k]], dtype=complex)
 
